@@ -8,6 +8,7 @@ package myinterp
 // external or because they use "unsafe" or "reflect" operations.
 
 import (
+	"go/types"
 	"bytes"
 	"maps"
 	"math"
@@ -126,9 +127,15 @@ func ext۰bytes۰Equal(fr *frame, args []value) value {
 func ext۰bytes۰IndexByte(fr *frame, args []value) value {
 	// func IndexByte(s []byte, c byte) int
 	s := args[0].([]value)
-	c := args[1].(byte)
 	for i, b := range s {
-		if b.(byte) == c {
+		if !isSym(b) && !isSym(args[1]) {
+			if b.(byte) == args[1].(byte) {
+				return i
+			}
+			continue
+		}
+		// a symbolic byte: one branch per position, in order
+		if X.branch(sym{types.Bool, "(= " + lift(b).term + " " + lift(args[1]).term + ")"}) {
 			return i
 		}
 	}
